@@ -509,7 +509,7 @@ impl Prop for C12 {
             2 => alias_strategy().prop_map(Case::Alias),
         ]
         .boxed();
-        Some((s, tier.pick(2_400, 120_000)))
+        Some((s, tier.pick(12_000, 240_000)))
     }
     fn enumerate(&self, _tier: Tier) -> Vec<Case> {
         ALIASES
